@@ -6,7 +6,7 @@
                 seq_step/seq_pre (Spec/PlainSeq.v)    - the plain-sequence meaning of a call / the caller's duty
                 dq_step          (Proofs/DequeProofs.v) - the model's API call, returning what the caller sees
    A model function returning None is a Go runtime panic. *)
-From Gws Require Import Lib.Base Model.Deque Spec.PlainSeq Proofs.DequeSeg Proofs.DequeInv Proofs.DequeProofs.
+From Gws Require Import Lib.Base Model.Deque Spec.PlainSeq Proofs.DequeSeg Proofs.DequeInv Proofs.DequeProofs Gen.Funcs Proofs.DequeFromSource.
 
 (* New(n) (n >= 0) does not panic; New(n) and the zero value represent the empty sequence *)
 Theorem C20_fresh : forall (V : Type) (zero : V),
@@ -90,6 +90,32 @@ Proof.
   eexists. split; vm_compute; reflexivity.
 Qed.
 
+(* Tie to the source: the head / tail / length bookkeeping of the three link operations every mutating method goes
+   through - doRemove (its `state` counter, the four cases, the nil tests), doPushBack and doPushFront (first element:
+   head and tail together; otherwise the one end) - in the definitions REGENERATED from internal/deque.go on this run,
+   applied to the values the model reads through its element pointers, yields the head, tail and length of the model's
+   result.  (The stores into the neighbouring elements are the model's, tied by the correspondence run.) *)
+Theorem C20_remove_links_from_source : forall (V : Type) (d d' : @dq V) i (e : @elem V) ip inx ve,
+  rd d i = Some e -> do_remove d i = Some d' ->
+  gf_internal_Deque_doRemove (Z.of_nat (head d)) (dlen d) (Z.of_nat (tail d)) inx ip
+    (Z.of_nat (enext e)) (Z.of_nat (eprev e)) (addr_at d (enext e)) (addr_at d (eprev e)) ve
+  = (0%Z, Z.of_nat (head d'), Z.of_nat (tail d'), dlen d').
+Proof. intro V. exact (@gen_doRemove_is V). Qed.
+
+Theorem C20_push_links_from_source : forall (V : Type) (d d' : @dq V) i (e : @elem V) x ve,
+  rd d i = Some e ->
+  (do_push_back d i = Some d' ->
+   gf_internal_Deque_doPushBack (Z.of_nat (head d)) (dlen d) (Z.of_nat (tail d)) x (Z.of_nat (eaddr e)) ve
+   = (0%Z, Z.of_nat (head d'), Z.of_nat (tail d'), dlen d'))
+  /\ (do_push_front d i = Some d' ->
+      gf_internal_Deque_doPushFront (Z.of_nat (head d)) (dlen d) (Z.of_nat (tail d)) x (Z.of_nat (eaddr e)) ve
+      = (0%Z, Z.of_nat (head d'), Z.of_nat (tail d'), dlen d')).
+Proof.
+  intros V d d' i e x ve Hrd. split; intro H.
+  - exact (@gen_doPushBack_is V d d' i e x ve Hrd H).
+  - exact (@gen_doPushFront_is V d d' i e x ve Hrd H).
+Qed.
+
 Print Assumptions C20_fresh.
 Print Assumptions C20_step_refines.
 Print Assumptions C20_refines_list.
@@ -98,3 +124,5 @@ Print Assumptions C20_len_range_agree.
 Print Assumptions C20_get_live.
 Print Assumptions C20_handles_stable.
 Print Assumptions C20_clone.
+Print Assumptions C20_remove_links_from_source.
+Print Assumptions C20_push_links_from_source.
